@@ -34,6 +34,7 @@ POOL = [
     (("K", 2), 0, "return ('leaf', 7, call_next(x))"),
     (("raw", "list"), 0, "return ['v'] + [recurse(a) for a in x]"),     # overriding container (same signature as 0)
     (("raw", "dict"), 0, "return {k: (tag, rec(v)) for k, v in x.items()}", "rec = recurse\ntag = 'c'"),  # recurse reached through a closure cell
+    (("type", ("K", 0)), 0, "return ('typeleaf', 10)"),                 # a leaf on type[K0]: the position becomes "complex"
 ]
 
 
@@ -143,6 +144,17 @@ def make_run(W, shape, known_active=None):
                 led.own[a].append(m)
                 refs.clear()
                 probe(a)
+        # a law that does not go through the flat reference: where the plain list container (method 0) is the list method of a
+        # node, recursion over a list is element-wise -- also for CLASS objects (type[...] leaves)
+        for v in range(len(nodes)):
+            fl = led.flat(v, same_key)
+            if 0 in fl and 8 not in fl:
+                for name, e in (("K0", W.K[0]), ("K1", W.K[1]), ("a", W.inst[0])):
+                    direct = full_outcome(lambda: nodes[v](e), LOG)
+                    nested = full_outcome(lambda: nodes[v]([e]), LOG)
+                    if nested[0][:1] == [0] and direct[1][0] == "ret" and nested[1] != ["ret", "[" + direct[1][1] + "]"]:
+                        ok = False
+                        trace.append(dict(node=v, input=f"[{name}]", got=nested, flat_reference=["element-wise law", direct]))
         for v in reversed(range(len(nodes))):   # children first, then every ancestor must still be itself
             probe(v)
         for v in range(len(nodes)):
@@ -203,7 +215,7 @@ def gen_graph(rng, L):
         n = len(own)
         leaves = [v for v in range(n) if not any(v in par[w] for w in range(n))]
         v = rng.choice(leaves)
-        cand = [m for m in (3, 4, 5, 6, 7) if all(key(m) != key(o) for o in own[v])]
+        cand = [m for m in (3, 4, 5, 6, 7, 10) if all(key(m) != key(o) for o in own[v])]
         if cand:
             ops.append(("latereg", v, rng.choice(cand)))
     return [list(o) for o in ops]
@@ -219,8 +231,10 @@ def gen_shapes(tier, seed):
     fam.append([["new", [0, 1, 5]], ["variant", 0, 4, True], ["variant", 1, 7, True], ["variant", 0, 3, False]])
     fam.append([["new", [0, 9, 5]], ["variant", 0, 3, False], ["variant", 1, 4, False]])
     fam.append([["new", [0, 2, 5]], ["variant", 0, 3, False], ["latereg", 1, 4]])
+    fam.append([["new", [0, 5]], ["variant", 0, 10, False], ["variant", 1, 3, False]])
+    fam.append([["new", [0, 3, 5]], ["copy", 0, False], ["reg", 1, 10]])
     fam.append([["new", [0, 1, 5]], ["copy", 0, True], ["latereg", 1, 3], ["latereg", 1, 7]])
-    N = 600 if tier == "quick" else 8000
+    N = 420 if tier == "quick" else 8000
     shapes = [dict(n=3, ops=h) for h in fam]
     for _ in range(N):
         shapes.append(dict(n=3, ops=gen_graph(rng, rng.choice((3, 4, 5, 6)))))
@@ -244,7 +258,7 @@ def main(tier, seed):
     results = runner.pmap("props.c08", "explore_shape", shapes, kw, chunksize=2)
     return runner.finish(
         PID, tier, seed, t0, results,
-        bounds=dict(classes=3, nodes="<= 5 functions", pool="10 methods (one defined in a factory, reaching recurse through a closure cell): list/dict containers via recurse, tuple container naming the root function, an "
+        bounds=dict(classes=3, nodes="<= 5 functions", pool="11 methods (a leaf on type[K0]; one defined in a factory, reaching recurse through a closure cell): list/dict containers via recurse, tuple container naming the root function, an "
                     "overriding list container, leaves on K0/K1/K2/object (one overriding, one using call_next)",
                     graphs="random build histories of 3-6 operations (new / copy / variant / add_mixins / register), half of them followed by a registration on an already used leaf node, + 7 documented patterns; forests "
                            "with fan-in <= 2, depth <= 4", inputs="6 nested inputs (lists, tuples, dicts to depth 3 over instances of the 3 classes and object())",
